@@ -220,6 +220,20 @@ class Cond:
                 if names:
                     return self._mk(("val", place_to_str(fn, p[1], [])), _map_names(vs, names))
                 return []
+            if p[0] == "call" and (callee_name(p) or "").endswith("::branch") and p[3]:
+                # `?` applied to a value built as one constant variant per path (the Ok / Err a spliced helper
+                # returns): Continue <-> Ok / Some, Break <-> Err / None
+                q = _unref(p[3][0])
+                if q[0] == "phi" and q[2] and all(a[0] == "agg" and a[1] == "adt" and a[3] for a in q[2]):
+                    vars_ = {a[3] for a in q[2]}
+                    if vars_ <= {"Ok", "Err"}:
+                        names = {0: "Ok", 1: "Err"}
+                    elif vars_ <= {"Some", "None"}:
+                        names = {0: "Some", 1: "None"}
+                    else:
+                        names = None
+                    if names:
+                        return self._mk(("val", place_to_str(fn, q[1], [])), _map_names(vs, names))
             if p[0] == "call":
                 # discriminant of a call result (`if let Some(x) = self.f.take()`)
                 ret_ty = p[4][2] if len(p[4]) > 2 else None
